@@ -28,9 +28,64 @@ class Program:
 
     # ---- bodies
     def body(self, key):
+        """The default view of a function: its MIR with *helper-type plumbing* spliced in — small loop-free methods / conversions of
+        private helper types (a struct bundling two values, an enum naming a table row …).  Original blocks keep their numbers.
+        `raw_body` gives the function exactly as compiled."""
         if key not in self._bodies:
-            self._bodies[key] = Body(self.fns[key])
+            plumb = self.plumbing_fns()
+            if plumb and key not in plumb and any(self._calls_any(key, plumb)):
+                from .inline import inlined_body
+                self._bodies[key] = inlined_body(self, key, stop=lambda g: g not in plumb, maxdepth=3)
+            else:
+                self._bodies[key] = Body(self.fns[key])
         return self._bodies[key]
+
+    def raw_body(self, key):
+        k = ("raw", key)
+        if k not in self._bodies:
+            self._bodies[k] = Body(self.fns[key])
+        return self._bodies[k]
+
+    def _calls_any(self, key, targets):
+        for b in self.fns[key]["mir"]["blocks"]:
+            t = b["term"]
+            if t["k"] == "call" and "callee" in t:
+                c = t["callee"]
+                yield (c.get("resolved") in targets) or (c.get("path") in targets)
+
+    # types whose methods are the rules' vocabulary (never plumbing)
+    ROLE_TYPE_PREFIXES = ("config::Config", "data::Data", "utility::SplittedString", "suggestion::Suggestion", "suggestion::Rank", "context::RitiContext",
+                          "fixed::layout::Layout", "fixed::method::FixedMethod", "phonetic::method::PhoneticMethod",
+                          "phonetic::suggestion::PhoneticSuggestion", "(dyn ", "char")
+
+    def plumbing_fns(self):
+        if getattr(self, "_plumbing", None) is not None:
+            return self._plumbing
+        out = set()
+        local_adts = set(self.adts)
+        for k, f in self.fns.items():
+            if f.get("kind") == "Closure" or f.get("no_mangle"):
+                continue
+            imp = f.get("impl") or {}
+            st = re.sub(r"<.*$", "", imp.get("self") or "")
+            if not st or st not in local_adts or any(st.startswith(p) for p in self.ROLE_TYPE_PREFIXES):
+                continue
+            # role types found by structure as well: the method structs and what they embed
+            if st in self.method_structs() or any(st == re.sub(r"<.*$", "", fl["ty"]) for ms in self.method_structs() for fl in self.struct_fields(ms)
+                                                  if re.sub(r"<.*$", "", fl["ty"]) in local_adts and len(self.adts[re.sub(r"<.*$", "", fl["ty"])]["variants"][0]["fields"]) > 3):
+                continue
+            tr = imp.get("trait")
+            if tr and tr not in ("std::convert::From", "std::convert::Into", "std::default::Default", "std::convert::AsRef", "std::ops::Deref",
+                                 "std::borrow::Borrow", "std::convert::TryFrom"):
+                continue
+            m = f["mir"]
+            if len(m["blocks"]) > 40:
+                continue
+            if Body(f).loops():
+                continue
+            out.add(k)
+        self._plumbing = out
+        return out
 
     def promoted(self, key, i):
         k = (key, i)
